@@ -55,7 +55,7 @@ def agg : P Agg := do
 
 def vmin (a b : Vec) : Vec := ⟨min a.x b.x, min a.y b.y, min a.z b.z⟩
 def vmax (a b : Vec) : Vec := ⟨max a.x b.x, max a.y b.y, max a.z b.z⟩
-def flipX (a : Vec) : Vec := ⟨-a.x, a.y, a.z⟩
+def flipX (a : Vec) : Vec := V3.flipX a
 
 /-- the scene part of a line: `F nf (rot vec)* S ne entry* K nk sens*` -/
 def scene : P (List E × List K) := do
